@@ -139,6 +139,43 @@ def judge_point(ctx, d, x, y, kind="jacobi", enum=False):
     _compare(ctx, d, "from_public_point", case, want, got, P if rec.on_curve(d.c, P) and 0 <= x < d.p and 0 <= y < d.p else None, enum)
 
 
+IDENTITY_OBJECTS = ("singleton", "restored-copy", "n-times-G", "P-minus-P", "jacobi-z0", "table-point-times-n")
+
+
+def judge_identity(ctx, d, how):
+    """the point at infinity handed over as a point object (validation on) is no public key: it has no
+    coordinates in [0, p-1]; the refusal must be the documented MalformedPointError"""
+    import pickle
+    from ecdsa.ellipticcurve import INFINITY
+    ctx.ev()
+    case = {"kind": "identity", "curve": d.name, "obj": how}
+    try:
+        if how == "singleton":
+            obj = INFINITY
+        elif how == "restored-copy":
+            obj = pickle.loads(pickle.dumps(INFINITY))
+        elif how == "n-times-G":
+            obj = PointJacobi(d.lib.curve, d.G[0], d.G[1], 1, d.n) * d.n
+        elif how == "table-point-times-n":
+            obj = d.lib.generator * d.n
+        elif how == "P-minus-P":
+            obj = PointJacobi(d.lib.curve, d.G[0], d.G[1], 1) + PointJacobi(d.lib.curve, d.G[0], (-d.G[1]) % d.p, 1)
+        else:
+            obj = PointJacobi(d.lib.curve, d.G[0], d.G[1], 0)
+    except Exception as e:
+        ctx.event("identity-object-not-constructible:" + how)
+        return
+    try:
+        vk = VerifyingKey.from_public_point(obj, curve=d.lib)
+        ctx.fail("from_public_point/accepted-invalid/identity/%s" % how, case,
+                 "the point at infinity was accepted as a public key: %r" % (vk.pubkey.point,))
+    except MalformedPointError:
+        pass
+    except Exception as e:
+        ctx.fail("from_public_point/exception/identity/%s" % exc_sig(e), case, repr(e))
+    ctx.nontrivial(("identity", d.name, how))
+
+
 def judge_der(ctx, d, der, via_pem=False, label="PUBLIC KEY", hint=""):
     """from_der / from_pem against strict SPKI parsing + point validation"""
     ctx.ev()
@@ -213,6 +250,8 @@ def toy1_sweep(ctx, cname, part, nparts, prefixes):
             for y in range(256):
                 judge_string(ctx, d, bytes((pf, x, y)), enum=True)
     if part == 0:
+        for how in IDENTITY_OBJECTS:
+            judge_identity(ctx, d, how)
         judge_string(ctx, d, b"", enum=True)
         for b0 in range(256):
             judge_string(ctx, d, bytes((b0,)), enum=True)
@@ -304,6 +343,8 @@ def named_cases(ctx, cname, per, seed):
         for data in inputs:
             judge_string(ctx, d, data)
         # point objects
+        for how in IDENTITY_OBJECTS:
+            judge_identity(ctx, d, how)
         judge_point(ctx, d, x, y, "jacobi")
         judge_point(ctx, d, x, y, "legacy")
         judge_point(ctx, d, x, y, "jacobi-z")
@@ -437,5 +478,7 @@ def replay(ctx, case):
         judge_string(ctx, d, bytes.fromhex(case["data"]))
     elif case["kind"] == "point":
         judge_point(ctx, d, case["x"], case["y"], case["obj"])
+    elif case["kind"] == "identity":
+        judge_identity(ctx, d, case["obj"])
     else:
         judge_der(ctx, d, bytes.fromhex(case["der"]), case.get("pem", False), hint=case.get("hint", ""))
